@@ -263,7 +263,7 @@ CHECKS['C19'] = dict(
                  'a followed symlink is not descended when its target is the root or a directory on the way down (loop avoidance)'],
     units=[
         U('inpkg', 'TestVerifC19_Walker', q(3200, 16), q(48000, 16, cap=1800), pkg='src'),
-        U('proc', 'TestVerifC19_ProcWalker', q(192, 16, cap=900), q(3200, 16, cap=3000), needs_fzf=True),
+        U('proc', 'TestVerifC19_ProcWalker', q(320, 16, cap=900), q(3200, 16, cap=3000), needs_fzf=True),
         U('proc', 'TestVerifC19_ProcWalkerFilter', q(96, 8, cap=600), q(960, 8, cap=2400), needs_fzf=True),
     ])
 
@@ -346,7 +346,7 @@ CHECKS['C20'] = dict(
          'non-trivial = a preview was superseded while it could still be running',
     assumptions=['timing is varied, not controlled; a state that stays wrong for 4 s without change is a violation, the 40 s cap otherwise'],
     units=[
-        U('proc', 'TestVerifC20_Sessions', q(160, 16, cap=900), q(2400, 16, cap=3000), needs_fzf=True),
+        U('proc', 'TestVerifC20_Sessions', q(400, 16, cap=900), q(2400, 16, cap=3000), needs_fzf=True),
         U('proc', 'TestVerifC20_SupersededAtStart', q(160, 16, cap=900), q(2400, 16, cap=3000), needs_fzf=True),
         U('proc', 'TestVerifC20_ScrolledWhileStreaming', q(160, 16, cap=900), q(2400, 16, cap=3000), needs_fzf=True),
     ])
